@@ -215,6 +215,16 @@ Theorem label_string_roundtrip :
 Proof. exact parse_print_roundtrip_l. Qed.
 Print Assumptions label_string_roundtrip.
 
+(* the same with label names beyond ASCII: a name is whatever scanIdentifier reads as ONE identifier (uname_ok: ASCII letters / digits /
+   underscore and well-formed multi-byte runes the letter / digit oracles accept, no digit first); every name of the Loki syntax is such a
+   name for every oracle (label_name_ok_uname), so this statement contains label_string_roundtrip *)
+Theorem label_string_roundtrip_unicode_names :
+  forall (uletter udigit : string -> bool) blank (ls : list (string * list qel)) rest buf,
+  all_bytes is_ws blank = true -> ls <> [] -> forallb (upair_ok uletter udigit) ls = true ->
+  parse_labels uletter udigit (print_labels blank ls ++ rest) buf = Some (buf ++ labels_written ls).
+Proof. exact parse_print_roundtrip_u. Qed.
+Print Assumptions label_string_roundtrip_unicode_names.
+
 (* ... hence two label lists with the same text are the same list: a stream can not be taken for another one *)
 Theorem label_strings_distinguish_label_lists :
   forall (uletter udigit : string -> bool) blank1 blank2 ls1 ls2,
@@ -223,6 +233,14 @@ Theorem label_strings_distinguish_label_lists :
   print_labels blank1 ls1 = print_labels blank2 ls2 -> labels_written ls1 = labels_written ls2.
 Proof. exact written_texts_distinguish_l. Qed.
 Print Assumptions label_strings_distinguish_label_lists.
+
+Theorem label_strings_distinguish_label_lists_unicode_names :
+  forall (uletter udigit : string -> bool) blank1 blank2 ls1 ls2,
+  all_bytes is_ws blank1 = true -> all_bytes is_ws blank2 = true -> ls1 <> [] -> ls2 <> [] ->
+  forallb (upair_ok uletter udigit) ls1 = true -> forallb (upair_ok uletter udigit) ls2 = true ->
+  print_labels blank1 ls1 = print_labels blank2 ls2 -> labels_written ls1 = labels_written ls2.
+Proof. exact written_texts_distinguish_u. Qed.
+Print Assumptions label_strings_distinguish_label_lists_unicode_names.
 
 (* whatever text is accepted (well-formed or not), the labels already in the buffer stay in front, untouched, and at least
    one label is added (the JSON decoder parses a "labels" member into the buffer filled by earlier members) *)
@@ -538,3 +556,15 @@ Example influx_message_line_computed :
     [("message=""hello world"" statuscode=-7 kv=""null"" ok=true q=""" ++ String (Ascii.ascii_of_N 92) "tx""")%string] /\
   map e_msg (influx_line_entries 1 (IL "app"%string [] [("message", FStr "a=b c")]%string 5)) = ["a=b c"%string].
 Proof. vm_compute. repeat split. Qed.
+
+(* a label list with names outside ASCII (the oracle accepts e-acute and the CJK rune as letters, the Arabic-Indic digit three as a digit) *)
+Example unicode_label_names_hypotheses_met :
+  let uletter := fun s => String.eqb s "é" || String.eqb s "名" in
+  let udigit := fun s => String.eqb s "٣" in
+  let ls := [("région", [QByte "x"%char]); ("名٣_a9", [QRune "é"]); ("plain_1", [])]%string in
+  forallb (upair_ok uletter udigit) ls = true /\
+  uname_ok uletter udigit "٣x"%string = false /\ uname_ok (fun _ => false) udigit "région"%string = false /\
+  parse_labels uletter udigit (print_labels "" ls) [] = Some (labels_written ls) /\
+  map fst (labels_written ls) = ["région"; "名٣_a9"; "plain_1"]%string.
+Proof. vm_compute. repeat split. Qed.
+
